@@ -1691,11 +1691,11 @@ def emit_grad(M, L, tangent_block=True):
     if tangent_block:
         ent = law_tangent_trees(M, L)
         sig = "(%s : R) (%s : R)" % (ps, " ".join(CV))
-        for j in range(3):
-            for m in range(3):
+        for j in range(6):
+            for m in range(6):
                 out.append("Definition %s_tangent%d%d %s : R := %s." % (n, j, m, sig, coqR(ent[j][m])))
-        for j in range(3):
-            for m in range(3):
+        for j in range(6):
+            for m in range(6):
                 others = [c for i, c in enumerate(COMP) if i != m]
                 def args(var):
                     return " ".join("(%s)" % coqR(_km_arg(m, var)) if i == m else c for i, c in enumerate(COMP))
@@ -1707,11 +1707,13 @@ def emit_grad(M, L, tangent_block=True):
                            % (nm, ps, " ".join(others), dirs, hyp, n, j, ps, args("e"), dirs, n, j, m, ps, args("e0"), dirs))
                 unf = ", ".join(["%s_stress%d" % (n, j), "%s_tangent%d%d" % (n, j, m)] + ["%s_S%d" % (n, k) for k in INV]
                                 + ["%s_T%d" % (n, k) for k in INV if k in L["d2W1"]] + ["%s_H%d%d" % (n, a, b) for a in INV for b in INV])
-                out.append("Proof. intros %s %s %s e0%s. unfold %s. gsolve %s. Qed." % (ps, " ".join(others), dirs, " H" if I3 is not None else "", unf, "H" if I3 is not None else "I"))
+                tac = "gsolve" if (j < 3 and m < 3) or I3 is None else "gsolve2"
+                out.append("Proof. intros %s %s %s e0%s. unfold %s. %s %s. Qed." % (ps, " ".join(others), dirs, " H" if I3 is not None else "", unf, tac, "H" if I3 is not None else "I"))
                 names.append(nm)
     out.append("Print Assumptions %s_stress_is_energy_gradient_5." % n)
     if tangent_block:
         out.append("Print Assumptions %s_tangent_is_stress_derivative_00." % n)
+        out.append("Print Assumptions %s_tangent_is_stress_derivative_45." % n)
     return "\n".join(out) + "\n"
 
 
